@@ -2,6 +2,7 @@
 from __future__ import annotations
 
 import os
+import re
 import shutil
 import tempfile
 
@@ -187,7 +188,9 @@ class BazelStream(Stream):
             parts.pop(0)
             pkg = pkg[:-1]
         if path.startswith(".."):
-            return "@ws//%s:%s" % ("/".join(pkg), "/".join(parts[-2:]))
+            # the file sits in <pkg minus the parents>/<what follows the dots>: the directory that holds the wheel
+            # directory is the package, the wheel directory and the file name are the target
+            return "@ws//%s:%s" % ("/".join(pkg + parts[:-2]), "/".join(parts[-2:]))
         return "@ws//third_party/python:%s" % path
 
     def shrink(self, case):
@@ -400,5 +403,169 @@ class LockRegenerated(Stream):
         return self.inner.shrink(case)
 
 
+class BazelLayouts(Stream):
+    """workspace layouts of the Bazel front-end (the real private/compiler.py): one or two requirement inputs in different
+    packages, each declaring a `--find-links` directory relative to itself and needing a wheel only that directory has;
+    the lock beside the first input, in a sub-package of it, or in a package of its own.  The lock goes through the
+    Starlark loader under the label of the package it really sits in: every wheel label it returns must name the file the
+    compiler used (it exists, its SHA-256 is the recorded one)"""
+    name = "bazel-layouts"
+    quick_n = 40
+    thorough_n = 1500
+    batch = 10
+    parallel_quick = 4
+    prop = "C19"
+
+    def setup(self):
+        import tempfile
+        self.tmp = tempfile.mkdtemp(prefix="rvc19l")
+
+    def teardown(self):
+        import shutil
+        shutil.rmtree(getattr(self, "tmp", ""), ignore_errors=True)
+
+    def generate(self, rng):
+        inputs = [{"pkg": "pkg", "links": rng.choice(["wheels", "wheeldir", "../third_party/wheels", "vendor/whl"]), "project": "alpha"}]
+        if rng.random() < 0.6:
+            inputs.append({"pkg": rng.choice(["tools", "pkg/sub", "apps/cli"]), "links": rng.choice(["wheels", "deps/wheels"]), "project": "beta"})
+            if rng.random() < 0.5:
+                inputs.reverse()
+        return {"inputs": inputs, "lock_pkg": rng.choice([None, None, "locks", "3rdparty/locks", "SUB/locks"]),
+                "dep": rng.random() < 0.5}
+
+    def impl(self, case):
+        import contextlib
+        import hashlib
+        import io
+        import json as _json
+        import shutil
+        from rv import backends as B
+        from rv.bazelfe import load_private_compiler
+        from rv.core import digest
+        from rv.props.c05 import _Runfiles
+        GL.reset_caches()
+        pc = load_private_compiler()
+        root = os.path.join(self.tmp, digest(case))
+        shutil.rmtree(root, ignore_errors=True)
+        ws = os.path.join(root, "ws")
+        files = {}
+        args = []
+        for i, inp in enumerate(case["inputs"]):
+            d = os.path.join(ws, inp["pkg"])
+            os.makedirs(d, exist_ok=True)
+            wd = os.path.normpath(os.path.join(d, inp["links"]))
+            n = inp["project"]
+            wheels = {B.wheel_name(n, "1.0"): B.wheel_bytes(n, "1.0", requires=(["common-%s" % n] if case["dep"] else []))}
+            if case["dep"]:
+                wheels[B.wheel_name("common-%s" % n, "2.0")] = B.wheel_bytes("common-%s" % n, "2.0")
+            B.write_findlinks(wd, wheels)
+            for fn, data in wheels.items():
+                files[fn] = (os.path.join(wd, fn), hashlib.sha256(data).hexdigest())
+            with open(os.path.join(d, "requirements.in"), "w") as f:
+                f.write("--find-links %s\n\n%s\n" % (inp["links"], n))
+            args += ["--requirements_file", os.path.join("ws", inp["pkg"], "requirements.in")]
+        first_pkg = case["inputs"][0]["pkg"]
+        lock_pkg = first_pkg if case["lock_pkg"] is None else (case["lock_pkg"].replace("SUB", first_pkg))
+        os.makedirs(os.path.join(ws, lock_pkg), exist_ok=True)
+        lock = os.path.join(ws, lock_pkg, "requirements.txt")
+        open(lock, "w").close()
+        argv = args + ["--solution", os.path.join("ws", lock_pkg, "requirements.txt"),
+                       "--custom_compile_command", _json.dumps("bazel run //%s:requirements.update" % lock_pkg),
+                       "--output", os.path.join(lock_pkg, "requirements.txt"), "--no_index"]
+        old_ws = os.environ.get("BUILD_WORKSPACE_DIRECTORY")
+        os.environ["BUILD_WORKSPACE_DIRECTORY"] = ws
+        out, err = io.StringIO(), io.StringIO()
+        res = {"code": 0, "exception": None}
+        try:
+            with contextlib.redirect_stdout(out), contextlib.redirect_stderr(err):
+                try:
+                    pc.compile_main(pc.parse_args(argv), _Runfiles(root))
+                except SystemExit as ex:
+                    res["code"] = ex.code if isinstance(ex.code, int) else 1
+                except Exception as ex:
+                    res["exception"] = type(ex).__name__ + ": " + str(ex)[:200]
+        finally:
+            if old_ws is None:
+                os.environ.pop("BUILD_WORKSPACE_DIRECTORY", None)
+            else:
+                os.environ["BUILD_WORKSPACE_DIRECTORY"] = old_ws
+        res["stderr"] = err.getvalue()[-400:]
+        with open(lock) as f:
+            text = f.read()
+        res["lock"] = text
+        if res["code"] == 0 and not res["exception"]:
+            from rv import bzlshim
+            rr, u = bzlshim.reqs_repo()
+            try:
+                loaded = rr["parse_lockfile"](text, "hub", {}, bzlshim.Label("@ws//%s:requirements.txt" % lock_pkg))
+                pins = {}
+                for k, v in loaded.items():
+                    whl = v["whl"]
+                    entry = {"version": v["version"], "sha256": v["sha256"], "whl": str(whl) if whl else None, "deps": sorted(v["deps"])}
+                    if whl:
+                        m = re.match(r"^@?@?[A-Za-z0-9_.-]*//([^:]*):(.*)$", str(whl))
+                        if m:
+                            path = os.path.normpath(os.path.join(ws, m.group(1), m.group(2)))
+                            entry["file_exists"] = os.path.isfile(path)
+                            if entry["file_exists"]:
+                                with open(path, "rb") as f:
+                                    entry["file_sha256"] = hashlib.sha256(f.read()).hexdigest()
+                    pins[k] = entry
+                res["loaded"] = pins
+            except bzlshim.BzlFail as ex:
+                res["load_fail"] = str(ex)[:200]
+            except Exception as ex:
+                res["load_error"] = type(ex).__name__ + ": " + str(ex)[:150]
+        res["expected_files"] = {fn: list(v) for fn, v in files.items()}
+        shutil.rmtree(root, ignore_errors=True)
+        return res
+
+    def flags(self, case, r):
+        fl = ["inputs:%d" % len(case["inputs"]), "lock-beside-the-input" if case["lock_pkg"] is None else "lock-in-another-package", "exit:%s" % r["code"]]
+        if any(i["links"].startswith("..") for i in case["inputs"]):
+            fl.append("find-links-above-the-package")
+        return fl
+
+    def oracle(self, case, r):
+        P = self.prop
+        if r["exception"]:
+            return [("%s/bazel-compile-raises" % P, {"exception": r["exception"]})]
+        want = set()
+        for i in case["inputs"]:
+            want.add(GL.norm(i["project"]))
+            if case["dep"]:
+                want.add(GL.norm("common-%s" % i["project"]))
+        if r["code"] != 0:
+            return [("%s/bazel-front-end-does-not-find-what-an-input-files-find-links-offers" % P, {"exit": r["code"], "stderr": r["stderr"]})]
+        if P == "C16":
+            got = {GL.norm(m.group(1)) for m in re.finditer(r"^([A-Za-z0-9._-]+)==", r["lock"], re.M)}
+            if got != want:
+                return [("C16/bazel-front-end-pins-differ-from-the-inputs-closure", {"pins": sorted(got), "expected": sorted(want)})]
+            return []
+        if "load_fail" in r or "load_error" in r:
+            return [("C19/own-lock-rejected", {k: r[k] for k in ("load_fail", "load_error") if k in r})]
+        fails = []
+        got = set(r["loaded"])
+        if {k.replace("-", "_") for k in got} != {k.replace("-", "_") for k in want}:
+            fails.append(("C19/pins-differ", {"loaded": sorted(got), "expected": sorted(want)}))
+        for k, e in r["loaded"].items():
+            if e["whl"] is None:
+                fails.append(("C19/find-links-wheel-without-label", {"pin": k}))
+            elif not e.get("file_exists"):
+                fails.append(("C19/wheel-label-names-no-file", {"pin": k, "label": e["whl"], "lock": r["lock"][-500:]}))
+            elif e.get("file_sha256") != e["sha256"]:
+                fails.append(("C19/wheel-label-names-another-file", {"pin": k, "label": e["whl"]}))
+        return fails[:2]
+
+    def shrink(self, case):
+        if len(case["inputs"]) > 1:
+            yield dict(case, inputs=case["inputs"][:1])
+            yield dict(case, inputs=case["inputs"][1:])
+        if case["lock_pkg"] is not None:
+            yield dict(case, lock_pkg=None)
+        if case["dep"]:
+            yield dict(case, dep=False)
+
+
 def streams():
-    return [BazelStream(), CheckedInLocks(), RealFindLinks(), LockRegenerated()]
+    return [BazelStream(), CheckedInLocks(), RealFindLinks(), LockRegenerated(), BazelLayouts()]
